@@ -97,6 +97,127 @@ fn tagged_list(r: &mut Rng) -> (Vec<String>, gen::Req) {
 }
 
 pub fn run(ctx: &mut Ctx) {
+    seq(ctx);
+    incremental(ctx);
+}
+
+/// Blocker level: tagged rules of every category added one at a time (`add_filter`) while tags
+/// are being switched; after every operation the verdicts must be those of the rules added so far
+/// with `active(rule) <=> tag in S`.
+fn incremental(ctx: &mut Ctx) {
+    use adblock::blocker::{Blocker, BlockerOptions};
+    use adblock::lists::parse_filters;
+    use adblock::resources::ResourceStorage;
+    let sub = "incr";
+    let cases = ctx.n(40_000, 2_000_000);
+    let resdefs = standard_resources();
+    let res = ResModel { defs: &resdefs };
+    for idx in 0..cases {
+        if ctx.stop() {
+            break;
+        }
+        if !ctx.begin_case(sub, idx) {
+            continue;
+        }
+        let seed = ctx.seed;
+        let out = guarded(|| {
+            let mut r = Rng::for_case(seed, "c07.incr", idx);
+            let (all, target) = tagged_list(&mut r);
+            let opts = ParseOptions::default();
+            let split = r.below(all.len() + 1);
+            let mut rules: Vec<String> = all[..split].to_vec();
+            let mut pending: Vec<String> = all[split..].to_vec();
+            let (nf, _) = parse_filters(&rules, true, opts);
+            let mut b = Blocker::new(nf, &BlockerOptions { enable_optimizations: r.chance(1, 2) });
+            let storage = ResourceStorage::from_resources(resdefs.iter().map(|d| d.to_resource()));
+            let mut model: BTreeSet<String> = BTreeSet::new();
+            let mut battery = vec![target];
+            for _ in 0..2 {
+                battery.push(gen_request(&mut r, &all));
+            }
+            let mut history: Vec<String> = vec![format!("Blocker::new({} rules)", rules.len())];
+            let mut viol: Vec<(String, serde_json::Value)> = vec![];
+            let mut evals = 0u64;
+            let mut added_while_enabled = 0u64;
+            for _ in 0..3 + r.below(12) {
+                let mut tags: Vec<&str> = vec![];
+                for _ in 0..r.below(3) {
+                    tags.push(r.ps(VOCAB));
+                }
+                match r.below(10) {
+                    0..=1 => {
+                        history.push(format!("use_tags({:?})", tags));
+                        b.use_tags(&tags);
+                        model = tags.iter().map(|s| s.to_string()).collect();
+                    }
+                    2..=3 => {
+                        history.push(format!("enable_tags({:?})", tags));
+                        b.enable_tags(&tags);
+                        model.extend(tags.iter().map(|s| s.to_string()));
+                    }
+                    4..=5 => {
+                        history.push(format!("disable_tags({:?})", tags));
+                        b.disable_tags(&tags);
+                        for t in &tags {
+                            model.remove(*t);
+                        }
+                    }
+                    _ => {
+                        if let Some(line) = pending.pop() {
+                            let (mut nf, _) = parse_filters([&line], true, opts);
+                            if let Some(f) = nf.pop() {
+                                let tag_on = f.verif_tag().map(|t| model.contains(t)).unwrap_or(false);
+                                let res = b.add_filter(f);
+                                history.push(format!("add_filter({}) -> {:?}", line, res));
+                                if res.is_ok() {
+                                    rules.push(line);
+                                    if tag_on {
+                                        added_while_enabled += 1;
+                                    }
+                                }
+                            }
+                        }
+                    }
+                }
+                let tagset: HashSet<String> = model.iter().cloned().collect();
+                let mut scan = Scan::new(&rules, opts);
+                for q in &battery {
+                    let rq = match Request::new(&q.url, &q.source, q.rtype) {
+                        Ok(rq) => rq,
+                        Err(_) => continue,
+                    };
+                    evals += 1;
+                    let a = crate::mon::c05::blocker_answer(&b, &storage, &rq);
+                    let v = scan.verdict(&rq, &q.url, &tagset, &res);
+                    let d = diff(&a, &v);
+                    if !d.is_empty() {
+                        viol.push((
+                            format!("C07:incremental-verdict:{}", d.join("+")),
+                            json!({"rules_added_so_far": rules, "history": history, "enabled_tags_model": model, "url": q.url, "source": q.source,
+                                "type": q.rtype, "blocker": a.to_json(), "oracle": verdict_json(&v)}),
+                        ));
+                    }
+                }
+            }
+            (evals, added_while_enabled, viol, json!({"rules": rules, "history": history}))
+        });
+        match out {
+            Err(sig) => ctx.violation(sub, idx, &format!("C07:{}", sig), json!({})),
+            Ok((evals, added, viol, sample)) => {
+                ctx.evals(evals);
+                if added > 0 {
+                    ctx.obs("tagged_rules_added_while_their_tag_was_enabled", added as i64);
+                    ctx.nontrivial(fnv(&sample.to_string()));
+                }
+                for (sig, d) in viol {
+                    ctx.violation(sub, idx, &sig, d);
+                }
+            }
+        }
+    }
+}
+
+fn seq(ctx: &mut Ctx) {
     let sub = "seq";
     let cases = ctx.n(150_000, 8_000_000);
     let resdefs = standard_resources();
